@@ -19,6 +19,7 @@
 From Coq Require Import List String Bool Arith Lia.
 Import ListNotations.
 Open Scope string_scope.
+Open Scope list_scope.
 
 Definition mutex := string.
 Definition loc := list string.        (* receiver-field path: w.conf.Metadata.Format = ["conf";"Metadata";"Format"] *)
@@ -332,3 +333,84 @@ Section Checker.
   Definition check (fuel : nat) (main : list instr) : bool :=
     good (callf fuel) (chk_l (callf fuel) (mkA true [] [] []) main).
 End Checker.
+
+(* ---------------------------------------------------------------------------------------------- *)
+(* the table of accesses with their locksets, and the pairwise condition *)
+
+Definition access := (loc * bool * list mutex)%type.   (* location, is-write, lockset *)
+Definition acc_eqb (x y : access) : bool :=
+  let '(l1, w1, h1) := x in let '(l2, w2, h2) := y in meq l1 l2 && Bool.eqb w1 w2 && meq h1 h2.
+Definition allowed_of (accs : list access) (l : loc) (w : bool) (h : list mutex) : bool :=
+  existsb (acc_eqb (l, w, h)) accs.
+Definition intersects (a b : list mutex) : bool := existsb (fun m => mem m b) a.
+Definition compat (x y : access) : bool :=
+  let '(l1, w1, h1) := x in let '(l2, w2, h2) := y in
+  negb (overlap l1 l2 && (w1 || w2)) || intersects h1 h2.
+Definition pairwise_ok (accs : list access) : bool :=
+  forallb (fun x => forallb (compat x) accs) accs.
+
+(* Untrusted helper: enumerate the accesses of a program with the lockset each is made under (the
+   soundness theorem does not depend on it: a table that misses an access makes [check] fail). *)
+Section Collect.
+  Variable p : prog.
+  Definition cst := (bool * list mutex)%type.     (* solo, held *)
+
+  Definition coll_list (ci : cst -> instr -> list access * option cst) :=
+    fix cl (c : cst) (code : list instr) {struct code} : list access * option cst :=
+      match code with
+      | [] => ([], Some c)
+      | i :: k => match ci c i with
+                  | (acc, Some c') => let (acc2, r) := cl c' k in (acc ++ acc2, r)
+                  | (acc, None) => (acc, None)
+                  end
+      end.
+
+  Fixpoint coll (fuel : nat) : cst -> instr -> list access * option cst :=
+    fix ci (c : cst) (i : instr) {struct i} : list access * option cst :=
+      let cl := fix cl (c : cst) (code : list instr) {struct code} : list access * option cst :=
+        match code with
+        | [] => ([], Some c)
+        | i :: k => match ci c i with
+                    | (acc, Some c') => let (acc2, r) := cl c' k in (acc ++ acc2, r)
+                    | (acc, None) => (acc, None)
+                    end
+        end in
+      let '(solo, h) := c in
+      let callee f := match fuel with
+                      | O => []
+                      | S n => match lookup_body p f with
+                               | Some body => fst (coll_list (coll n) (false, h) body)
+                               | None => []
+                               end
+                      end in
+      match i with
+      | ILock m => ([], Some (solo, m :: h))
+      | IUnlock m => ([], Some (solo, remove_m m h))
+      | IRead l => (if solo then [] else [(l, false, h)], Some c)
+      | IWrite l => (if solo then [] else [(l, true, h)], Some c)
+      | IGo body => (fst (cl (false, []) body), Some (false, h))
+      | ICall f => (callee f, Some (false, h))
+      | IDeferCall f => (callee f, Some c)
+      | IIf x y => let (a1, r1) := cl c x in let (a2, r2) := cl c y in
+                   (a1 ++ a2, match r1 with Some _ => r1 | None => r2 end)
+      | ILoop body => (fst (cl (false, h) body), Some (false, h))
+      | IReturn => ([], None)
+      | _ => ([], Some c)
+      end.
+
+  Fixpoint dedupe (l : list access) : list access :=
+    match l with
+    | [] => []
+    | x :: t => if existsb (acc_eqb x) t then dedupe t else x :: dedupe t
+    end.
+
+  Definition collect (fuel : nat) (main : list instr) : list access :=
+    dedupe (fst (coll_list (coll fuel) (true, []) main)).
+End Collect.
+
+Definition lockset_ok (p : prog) (fuel : nat) (main : list instr) : bool :=
+  let accs := collect p fuel main in
+  pairwise_ok accs && check p (allowed_of accs) false fuel main.
+
+Definition nonblocking_ok (p : prog) (fuel : nat) (main : list instr) : bool :=
+  check p (fun _ _ _ => true) true fuel main.
